@@ -262,6 +262,35 @@ def real_unify(pairs, watch, sched=('all',), swap_last=False, atoms='same'):
     return res, late
 
 
+def real_unify_alternatives(prefix, alts, watch):
+    """the unifications of `prefix` stay open while the alternatives are tried one after the other
+    (each is backtracked before the next); at every yield the watch terms are read. Returns one
+    entry per alternative: [ans ...] or fail, then the number of variables still bound."""
+    yp = E.YP()
+    vs = {}
+    pre = [(R.build_term(yp, a, vs), R.build_term(yp, b, vs)) for a, b in prefix]
+    al = [(R.build_term(yp, a, vs), R.build_term(yp, b, vs)) for a, b in alts]
+    ws = [R.build_term(yp, t, vs) for t in watch]
+    out = []
+
+    def nest(i):
+        if i == len(pre):
+            yield False
+            return
+        for _ in E.unify(pre[i][0], pre[i][1]):
+            yield from nest(i + 1)
+    g = nest(0)
+    for _ in g:
+        for a, b in al:
+            got = Sym('fail')
+            for _ in E.unify(a, b):
+                got = [Sym('ans')] + R.canon_terms(ws)
+            out.append(got)
+    del g
+    gc.collect()
+    return out, R.bound_count()
+
+
 def model_cmd(pairs, watch, sched=('all',), fuel=600):
     s = Sym('all') if sched[0] == 'all' else [Sym(sched[0]), sched[1]]
     return [Sym('unify'), fuel, [[a, b] for a, b in pairs], watch, s]
